@@ -83,6 +83,7 @@ func pipeAlphabet(cfg Cfg) []wire.Op {
 // RunPipe executes one pipeline scenario and applies the reply-discipline oracle.
 func RunPipe(sc PipeScenario) (fs []Finding, trace string) {
 	w := NewWorld(sc.Cfg)
+	defer w.Release()
 	m := refmodel.New(uint32(time.Now().Unix()))
 	s := w.Connect(0)
 	add := func(clause, what string, op wire.Op, exp, got string) {
@@ -157,6 +158,11 @@ func opTag(op wire.Op) string {
 
 func runC08(c *rt.Ctx) {
 	cfgs := AllCfgs([]string{"std"})
+	for _, h := range []string{"chunked", "batched"} {
+		for _, p := range []string{"binary", "text"} {
+			cfgs = append(cfgs, Cfg{Orca: "l1l2", Lock: "none", Proto: p, L1H: h}, Cfg{Orca: "l1only", Lock: "none", Proto: p, L1H: h})
+		}
+	}
 	maxLen := 2
 	if c.Thorough() {
 		maxLen = 3
